@@ -108,7 +108,13 @@ func (d *Dev) advance(c *devsim.Conn) {
 			d.state = StDead
 			stop = true
 		case KUser, KPassword, KPassphrase:
-			c.Emit([]byte(s.Text))
+			if s.Uncut {
+				st := c.Generated()
+				c.EmitProtected([]byte(s.Text))
+				d.Prot = append(d.Prot, [2]int{st, c.Generated()})
+			} else {
+				c.Emit([]byte(s.Text))
+			}
 			d.state = stateFor(s.Kind)
 			stop = true
 		case KShell:
